@@ -81,6 +81,14 @@ def cmd_slice(tier, shard, nshards, order="fwd"):
                     a = run_case(spec, cfg, "enumerate", None, stack)
                     k = f"{i}|{'/'.join(map(str, cfg))}|enumerate@stack{stack}"
                     out["cases"][k] = [digest(a), len(a["solutions"]), a["abort"]]
+    # searches as deep as / deeper than the stack, at the largest heights (chain x_0 <= x_1 <= ... over booleans or {0,1,2}):
+    # both modes must give the same solutions or the same refusal
+    if shard == 0:
+        for n, dom, stack, heur in ((250, (0, 1), 256, "min"), (258, (0, 1), 256, "min"), (258, (0, 1), 255, "split_low"), (253, (0, 1), 255, "max"),
+                                    (128, (0, 2), 256, "mid"), (127, (0, 2), 255, "mid"), (20, (0, 1), 16, "min"), (8, (0, 2), 16, "mid")):
+            spec = U.spec([dom] * n, [(i, 0) for i in range(n)], [("affine_leq", [i, i + 1], (1, -1, 0)) for i in range(n - 1)], "deep-chain")
+            a = run_case(spec, ("bc", "first", heur, None), "enumerate", None, stack)
+            out["cases"][f"deep-chain|{n}|{dom}|{stack}|{heur}"] = [digest(a), len(a["solutions"]), a["abort"]]
     print(json.dumps(out))
 
 
